@@ -77,23 +77,26 @@ Add == \E f \in Pick(Fits) : LET o == Offer(<<f>>) IN
          /\ fit' = Append(fit, f) /\ ranked' = o.ranked
          /\ known' = IF phase = "initial" THEN known + 1 ELSE known
          /\ UNCHANGED <<cfg, phase>>
-         /\ Log([name |-> "add", fs |-> <<f>>, te |-> 0], Expect(o.ranked, o.improved, phase))
+         /\ Log([name |-> "add", fs |-> <<f>>, te |-> 0, speed |-> ""], Expect(o.ranked, o.improved, phase))
 AddAll == \E fs \in Pick(UNION { [1..n -> Fits] : n \in 0..MaxBatch }) : LET o == Offer(fs) IN
          /\ fit' = fit \o fs /\ ranked' = o.ranked
          /\ known' = IF phase = "initial" THEN known + Len(fs) ELSE known
          /\ UNCHANGED <<cfg, phase>>
-         /\ Log([name |-> "add_all", fs |-> fs, te |-> 0], Expect(o.ranked, o.improved, phase))
+         /\ Log([name |-> "add_all", fs |-> fs, te |-> 0, speed |-> ""], Expect(o.ranked, o.improved, phase))
 \* on_generation with a termination estimate in percent; the exploration ratio is 90 %
-Generation == \E te \in Pick({10, 10, 10, 95}) :
+\* the tick also carries the refinement speed the telemetry has measured (unknown, slow with ratio 1/10 or 1/4, moderate): populations
+\* may scale their selection with it, the properties do not depend on it
+Speeds == {"unknown", "slow10", "slow25", "moderate"}
+Generation == \E te \in Pick({10, 10, 10, 95}), sp \in Pick(Speeds) :
          LET ph == CASE cfg.kind # "rosomaxa" -> phase
                      [] phase = "initial" -> IF te > 90 THEN "exploitation" ELSE IF known >= cfg.initialSize THEN "exploration" ELSE "initial"
                      [] phase = "exploration" -> IF te < 90 THEN "exploration" ELSE "exploitation"
                      [] OTHER -> "exploitation" IN
          /\ phase' = ph /\ known' = IF ph = "initial" THEN known ELSE 0
          /\ UNCHANGED <<cfg, fit, ranked>>
-         /\ Log([name |-> "on_generation", fs |-> <<>>, te |-> te], Expect(ranked, FALSE, ph))
+         /\ Log([name |-> "on_generation", fs |-> <<>>, te |-> te, speed |-> sp], Expect(ranked, FALSE, ph))
 Select == /\ UNCHANGED <<cfg, fit, ranked, phase, known>>
-          /\ Log([name |-> "select", fs |-> <<>>, te |-> 0], Expect(ranked, FALSE, phase))
+          /\ Log([name |-> "select", fs |-> <<>>, te |-> 0, speed |-> ""], Expect(ranked, FALSE, phase))
 Next == Len(hist) < Depth /\ (Add \/ AddAll \/ Generation \/ Select)
 Spec == Init /\ [][Next]_vars
 
